@@ -34,71 +34,12 @@ def run(ctx):
         ctx.count("functions_analysed", len(crate.bodies))
         mech.memo_check(ctx, "memoisation", crate, crs, tag)
         mech.choke_points(ctx, "choke-points", crate, tag)
-        filter_siblings(ctx, crate, crs, tag)
+        mech.filter_siblings(ctx, crate, crs, tag)
         sorted_provenance(ctx, crate, crs, tag)
         mech.availability_query(ctx, "availability", crate, crs, tag)
         mech.hint_writers(ctx, "availability", crate, tag)
         mech.hint_arms(ctx, crate, crs, tag)
         mech.guards(ctx, crate, tag)
-
-
-def filter_siblings(ctx, crate, crs, tag):
-    table = [(CACHE + "get_or_cache_matching_candidates", False, "version_set_candidates"),
-             (CACHE + "get_or_cache_non_matching_candidates", True, "version_set_inverse_candidates")]
-    for fn, inverse, field in table:
-        b = body_by_key(crate, fn, coroutine=True)
-        if b is None:
-            ctx.ob("filter-siblings" + tag, fn, "anchor", False, "", "async body not found")
-            continue
-        sites = b.calls_to(lambda f: provider_call(f, "filter_candidates"))
-        ctx.floor("filter-siblings" + tag, "filter_candidates call in %s" % fn.split("::")[-1], len(sites), 1)
-        for i, t in sites:
-            inv = t["args"][3]
-            ctx.ob("filter-siblings" + tag, b.key, "inverse-flag", inv.get("k") == "const" and inv.get("v") is inverse,
-                   where_call(b, i), "inverse = %s feeds %s" % (inv.get("v"), field))
-            # result flows into the insert on `field`
-            ins = q.calls_on_field(b, mech.INSERTS, CACHE_ADT, field)
-            flows = False
-            for ii, it in ins:
-                d, chain = q.origin_thru(b, it["args"][2], transparent=q.TRANSPARENT | {
-                    "std::iter::Iterator::collect", "std::iter::IntoIterator::into_iter"})
-                fut, _ = _await_source(b, d)
-                if fut is not None and fut == i:
-                    flows = True
-            ctx.ob("filter-siblings" + tag, b.key, "result-stored-in:%s" % field, flows, where_call(b, i),
-                   "the provider's answer itself is what is stored in %s" % field)
-            # version set passed = function's version set = lookup key
-            lk = None
-            for li, lt in q.calls_on_field(b, mech.LOOKUPS, CACHE_ADT, field):
-                lk = mech.key_desc(b, lt["args"][1])
-            same_vs = lk is not None and q.same_origin(lk, mech.key_desc(b, t["args"][2]))
-            ctx.ob("filter-siblings" + tag, b.key, "same-version-set", same_vs, where_call(b, i),
-                   "filter is asked about the queried version set")
-            # candidate list = .candidates of get_or_cache_candidates(version_set_name(version_set))
-            d, chain = q.origin_thru(b, t["args"][1])
-            full = q.mentions_field(d, CAND_ADT, "candidates")
-            src, _ = _await_source(b, d)
-            pkg_ok = False
-            if src is not None:
-                st = b.blocks[src]["term"]
-                if st.get("f") and CACHE + "get_or_cache_candidates" in callee_keys(st["f"]):
-                    nd, _ = q.origin_thru(b, st["args"][1])
-                    if nd["k"] == "call" and nd["t"]["f"]["name"] == "version_set_name" and \
-                            lk is not None and q.same_origin(lk, mech.key_desc(b, nd["t"]["args"][1])):
-                        pkg_ok = True
-            ctx.ob("filter-siblings" + tag, b.key, "filters-full-package-list", full and pkg_ok, where_call(b, i),
-                   "filter input is Candidates.candidates of the version set's own package")
-
-
-def _await_source(b, d):
-    """If the descriptor bottoms out in the Ready payload of an `.await`, return the block of the call that
-    created the awaited future."""
-    if d["k"] == "call" and d["t"].get("f") and "futures::Future::poll" in callee_keys(d["t"]["f"]):
-        # poll(Pin::new_unchecked(&mut fut), cx): fut <- into_future(call)
-        fd, chain = q.origin_thru(b, d["t"]["args"][0], transparent=q.TRANSPARENT | {"std::pin::Pin::new_unchecked"})
-        if fd["k"] == "call":
-            return fd["bb"], fd
-    return None, None
 
 
 def sorted_provenance(ctx, crate, crs, tag):
@@ -135,7 +76,7 @@ def sorted_provenance(ctx, crate, crs, tag):
         for i, t in pre:
             if t["f"]["name"] == "extend_from_slice":
                 md, _ = q.origin_thru(b, t["args"][1], transparent=q.TRANSPARENT | {"std::ops::Try::branch"})
-                src, _ = _await_source(b, md)
+                src, _ = mech._await_source(b, md)
                 if src is not None and CACHE + "get_or_cache_matching_candidates" in callee_keys(b.blocks[src]["term"]["f"]):
                     filled = True
         ctx.ob("sorted-provenance" + tag, b.key, "sorted-input-is-matching-list", filled, where_call(b, si),
